@@ -101,6 +101,11 @@ claimed = {
   text="rapid generates a module main -> p1 -> ... (2-4 packages; per package a constant folded into importers at compile time, optionally an embedded file, a C file named by LLGoFiles, build-tag-selected files, init-carrying extra files) and a history of 4-10 steps (edit a constant of main / a dependency / the leaf, edit an embedded file with the same or another length, edit the C file, toggle the build tag, add / remove a source file, revert, rewrite unchanged, -O0/-O2, no-op rebuild, drop the module's cache entries, and a dedicated same-size-same-mtime edit). After every step the llgo under test rebuilds with the same cache directory; the program must print what the model computes from the current inputs. At the end two builds from an empty module cache must have byte-identical archive members. Exploration only.",
   note="Drives the llgo command line; -X overrides (not reachable from the CLI) and behaviour-affecting environment variables are not generated; the final executable is not compared (only package archives); same-size-same-mtime edits are a listed finding.",
   design="§3 C13, §7"),
+ "C19": dict(
+  technique="differential testing of rapid-generated Go programs using the Python bindings against CPython running a generated script of the same computation, compared line by line per unit",
+  text="rapid generates programs of 12-30 units over three Go packages using github.com/goplus/lib/py: values (64-bit signed/unsigned integers incl. the range limits, floats by bit pattern incl. NaN/inf/-0/denormals, valid UTF-8 strings incl. multi-byte and NUL, byte strings, nested lists and tuples) are converted to Python objects and read back; bound builtins/math functions are called with order-sensitive positional arguments (divmod, round, format, max/min/sum, sorted, fmod, atan2, copysign, ldexp, gcd, comb, isqrt); callables fetched by name are invoked through CallNoArgs / CallOneArg / CallObject / CallFunctionObjArgs / Call with 0-6 arguments; module attributes are looked up by name; package-level initialisers in two other Go packages use Python modules before main. The same computation runs as a generated script under /usr/bin/python3 (the CPython 3.11 the program links) and all lines (printed through ascii()) must agree. Exploration only.",
+  note="O0, linux/amd64, libpython3.11; 'imported once' is observed only through use from several packages' initialisers (import counts are not instrumented); two defective bindings of the third-party module goplus/lib v0.3.1 are not used ((*Object).CStrAndLen, math.Hypot's typed variadic) and its missing bytes constructor is bound directly in the generated program.",
+  design="§3 C19, §7"),
 }
 not_yet = "check not built yet in this session (see DESIGN.md §3 for the planned generated-input check)"
 
